@@ -357,3 +357,37 @@ Example fz_ex_held : o_fns (fz_decide (fz_ex_atoms [] [fz_ex_del] true true [] [
 Proof. reflexivity. Qed.
 Example fz_ex_twice : o_fns (fz_decide (fz_ex_atoms [] [] true true [] [])) = [FAllow; FAllow].
 Proof. reflexivity. Qed.
+
+(* ---------- bridge: the list-of-names edits of part 3 are the JSON edits of part 1 ---------- *)
+Lemma fz_existsb_map : forall fin l, existsb (fz_is_fin fin) (map JStr l) = fl_mem fin l.
+Proof.
+  intros fin l. unfold fl_mem. induction l as [|a l IH]; simpl; [reflexivity|].
+  rewrite IH. rewrite (String.eqb_sym a fin). reflexivity.
+Qed.
+
+Lemma fz_foreign_map : forall fin l, fz_foreign fin (map JStr l) = map JStr (fl_allow fin l).
+Proof.
+  intros fin l. unfold fz_foreign, fl_allow. induction l as [|a l IH]; simpl; [reflexivity|].
+  destruct (negb (a =? fin)); simpl; rewrite IH; reflexivity.
+Qed.
+
+Lemma fz_apply_fn_bridge : forall fin f body l, fz_wellformed body = true -> fz_fins body = map JStr l ->
+  exists b', fz_apply_fn fin f body = Ok b' /\ fz_wellformed b' = true /\ fz_fins b' = map JStr (fl_apply_fn fin f l).
+Proof.
+  intros fin f body l Hwf Hl. destruct f; simpl.
+  - destruct (fz_block_spec fin body Hwf) as [b' [H1 [H2 [_ [_ [H5 H6]]]]]]. exists b'. split; [exact H1|]. split; [exact H2|].
+    rewrite Hl, fz_existsb_map in H5, H6. unfold fl_block. destruct (fl_mem fin l).
+    + rewrite (H5 eq_refl). exact Hl.
+    + rewrite (H6 eq_refl), map_app. reflexivity.
+  - destruct (fz_allow_spec fin body Hwf) as [b' [H1 [H2 H3]]]. exists b'. split; [exact H1|]. split; [exact H2|].
+    rewrite H3, Hl. apply fz_foreign_map.
+Qed.
+
+Lemma fz_apply_fns_bridge : forall fin fns body l, fz_wellformed body = true -> fz_fins body = map JStr l ->
+  exists b', fz_apply_fns fin fns body = Ok b' /\ fz_wellformed b' = true /\ fz_fins b' = map JStr (fl_apply_fns fin fns l).
+Proof.
+  intros fin fns. unfold fl_apply_fns. induction fns as [|f fns IH]; intros body l Hwf Hl; simpl.
+  - exists body; auto.
+  - destruct (fz_apply_fn_bridge fin f body l Hwf Hl) as [b1 [H1 [H2 H3]]]. rewrite H1. simpl.
+    destruct (IH b1 _ H2 H3) as [b' [H4 [H5 H6]]]. exists b'; auto.
+Qed.
